@@ -908,10 +908,24 @@ def oracle(ctx, cnt, case, obs):
                               for s in workers.values())
             if not later_store:
                 bad_purge = True
+        # --- scanner version: the directory was stamped with the loader's own version before the load began, yet
+        #     the load is handed an entry written by another version (which no process of that version stored
+        #     after that version check had begun): "a change of scanner version discards all entries"
+        for qid, c in workers.items():
+            if c.kind != 'check' or c.sver != w.sver or r.sver == w.sver or c.exc is not None or not c.steps:
+                continue
+            stamped = [i for i, lab in c.steps if lab == 'rename']
+            if not stamped or stamped[0] >= w.first_step:
+                continue
+            later_store = any(s.kind == 'store' and s.sver == r.sver and any(i > c.steps[0][0] for i, _l in s.steps)
+                              for s in workers.values())
+            if not later_store and not (r.op == -1 and init.get('stamp') == w.sver):
+                bad_purge = True
         if bad_purge:
             cnt.hit('oracle:survived-purge')
             ctx.report_failure(key_case, 'load of process %d returned an entry written by scanner version %d '
-                               'although a purge by another version had completed before the load began and no '
+                               'although a purge by another version had completed (or the directory had been stamped '
+                               'with the loader\'s own version) before the load began and no '
                                'process of version %d stored afterwards; schedule %s init %s'
                                % (pid, r.sver, r.sver, json.dumps(evs), json.dumps(init)), replay)
             continue
@@ -1104,6 +1118,50 @@ def sampled_case(rng, name, ops, mods, crashes):
         first = [i for i, e in enumerate(evs) if e[0] == 'spawn' and e[1] == pid][0]
         evs.insert(rng.randint(first + 1, len(evs)), ['crash', pid])
     return {'init': INITS[name], 'evs': with_late_load(evs, ops[-1][2])}
+
+
+def solo_steps(ex, init, op, sver):
+    """the system calls one operation performs when it runs alone from `init` (measured on the real code, so
+    that the directed schedules below follow the code when an operation gains or loses a step)"""
+    obs = ex.execute(init, [['spawn', 0, op, sver]] + [['step', 0]] * 24)
+    return [l for l in obs['trace'] if l != '-']
+
+
+def directed_cases(ex):
+    """Small deterministic families aimed at the windows that uniform sampling hits rarely.
+
+    1. late publish of an old parse (three operations): store A is held back before its last / last two system
+       calls; the source is modified; store B completes with the new parse; a loader runs with A's remaining
+       calls released before its k-th call, for every k.
+    2. change of scanner version: the version check of a new-version scanner is stopped (killed, or merely
+       descheduled) after each of its system calls; then a second new-version scanner starts (its own version
+       check, then a load)."""
+    out = []
+    for name in ('empty', 'stale'):
+        init = INITS[name]
+        n_a = len(solo_steps(ex, init, 'store', 7))
+        n_l = len(solo_steps(ex, INITS['fresh'], 'load', 7))
+        for held in (1, 2):
+            if n_a <= held:
+                continue
+            for tick in (True, False):
+                for k in range(n_l + 1):
+                    evs = [['spawn', 0, 'store', 7]] + [['step', 0]] * (n_a - held) + [['modify', tick]]
+                    evs += [['spawn', 1, 'store', 7]] + [['step', 1]] * (n_a + 2)
+                    evs += [['spawn', 2, 'load', 7]] + [['step', 2]] * k + [['step', 0]] * held
+                    evs += [['step', 2]] * (n_l + 1 - k)
+                    out.append({'init': init, 'evs': with_late_load(evs, 7), 'origin': 'directed:late-publish'})
+    init = INITS['fresh']
+    n_c = len(solo_steps(ex, init, 'check', 8))
+    for j in range(1, n_c + 1):
+        for crash in (True, False):
+            evs = [['spawn', 0, 'check', 8]] + [['step', 0]] * j + ([['crash', 0]] if crash else [])
+            evs += [['spawn', 1, 'check', 8]] + [['step', 1]] * (n_c + 1)
+            evs += [['spawn', 2, 'load', 8]] + [['step', 2]] * 6
+            if not crash:
+                evs += [['step', 0]] * (n_c + 1 - j)
+            out.append({'init': init, 'evs': with_late_load(evs, 8), 'origin': 'directed:version-change'})
+    return out
 
 
 def with_late_load(evs, sver=7):
@@ -1299,6 +1357,11 @@ def run(ctx):
         run_cases(ctx, ex, cnt, corpus, state, None)
         ctx.log('corpus: %d cases' % len(corpus))
         cnt.hit('corpus', len(corpus))
+        # ---- directed schedules (step counts measured on the real code)
+        directed = directed_cases(ex)
+        run_cases(ctx, ex, cnt, directed, state, None)
+        for c in directed:
+            cnt.hit(c['origin'])
         # ---- exhaustive interleavings (enumerated by the model, each confirmed on the real code)
         scen = list(ENUM_QUICK) + (list(ENUM_THOROUGH) if ctx.tier == 'thorough' else [])
         exhaustive_done = []
